@@ -14,7 +14,7 @@ CHECKS = {
    design_ref="§6 C04", technique="Lean 4 proof (frame/invariant over operations) + exact-rational white-box correspondence over update histories",
    note="theorems cover the Ruiz preconditioners; 'same trajectory as a fresh solver' (reuse=false) is carried by the exact correspondence, not by a theorem; known finding F16b (h made finite again without G) is a defect of the effective-data semantics itself and is reported as KNOWN-FINDING"),
  "C05": dict(category="proof",
-   text="Theorem rejected_is_identity: for every state and every call the model reports as rejected (any argument with a wrong size, sparse nnz/pattern mismatch, call before setup, rejected setup) the state is unchanged. Tie: the model's rejection classification and messages are compared with the real code on every kind of invalid call injected at every position of valid histories; the implementation's white-box state is compared across the rejected call and all later outputs with a twin history, exactly.",
+   text="Theorems rejected_is_identity (for every state and every call the model reports as rejected - any argument with a wrong size, sparse nnz/pattern mismatch, call before setup, rejected setup - the state is unchanged) and rejection_transparent (for every call history with rejected calls at any positions, the final state and the outcomes of all other calls are those of the history in which the rejected calls were never made). Tie: the model's rejection classification and messages are compared with the real code on every kind of invalid call injected at every position of valid histories; the implementation's white-box state is compared across the rejected call and all later outputs with a twin history, exactly.",
    design_ref="§6 C05", technique="Lean 4 proof (state-machine: rejected call = identity) + exact differential correspondence with injected invalid calls and twin histories",
    note="memory-safety clause (no out-of-bounds access) is outside the model; it is exercised by the same histories but not proved"),
  "C07": dict(category="proof",
@@ -38,9 +38,9 @@ CHECKS = {
    design_ref="§6 C02", technique="mechanism theorems in Lean 4 + sampled differential runs on the well-posed class (labelled as testing)",
    note="partial: convergence itself is monitored, not proved"),
  "C03": dict(category="proof",
-   text="Decision-logic theorems for every numeric back end: an infeasibility verdict is returned only at a loop head where the corresponding rule (counter > min(5,threshold), proximal distance > 1e12, regularised residual within tolerance) holds; SOLVED only when the termination test holds. The rules themselves are tied bit-exactly to real double runs (tie B). Ground truth is decided outside the solver in exact rational arithmetic (simplex cross-checked by Fourier-Motzkin, certificates re-verified) on an integer grid and constructed degenerate / Farkas / recession problems, all five back ends: a verdict contradicting the exact class is a violation.",
+   text="Decision-logic theorems for every numeric back end (primal_verdict_requires_rule, dual_verdict_requires_rule: an infeasibility verdict is returned only at a loop head where the corresponding rule holds; with C01: SOLVED only when the termination test holds) and soundness of the ground truth (farkas_sound: a Farkas vector excludes every feasible point; recession_sound: a recession direction from a feasible point makes the objective unbounded below; kkt_sufficient: for PSD P an exact KKT point is a global minimiser). Ground truth is decided outside the solver in exact rational arithmetic (simplex cross-checked by Fourier-Motzkin, certificates re-verified) on an integer grid (n<=2, all block presences, LPs, singular P), constructed degenerate strictly convex, Farkas-infeasible (rows, crossing bounds, bounds against an equality/inequality) and recession-unbounded problems, x 5 back ends, default and looser tolerances, update histories that disable and re-enable rows of G, plus a fixed corpus with check_duality_gap=false; a verdict contradicting the class is a violation. The rules themselves are tied bit-exactly to real double runs (tie B).",
    design_ref="§6 C03", technique="Lean 4 proof of the verdict logic + exact rational ground-truth classification vs. real runs",
-   note="'never INFEASIBLE on a solvable problem' is a claim about a heuristic: monitored on the enumerated classes, not proved; farkas/recession soundness lemmas are standard and re-verified numerically per certificate"),
+   note="'never INFEASIBLE on a solvable problem' is a claim about a heuristic: monitored on the enumerated classes, not proved; that 'feasible and no recession direction' implies an optimum exists (Frank-Wolfe) is used by the classifier and not mechanised; known finding F18 (check_duality_gap=false) is reported as KNOWN-FINDING"),
  "C06": dict(category="proof",
    text="Termination is a theorem about the code's loop structure: the main loop and the initial retry loop are Lean functions accepted by the termination checker with the measure (max_iter-iter, refinement not yet on, max_factor_retires-factor_retires) for arbitrary numeric operations (so NaN-poisoned comparisons and adversarial data are covered); iter<=max_iter and 'status in the documented set' are proved. The loop is the one the real solver model uses (tie A) and is replayed bit-exactly on traces of real double runs on adversarial inputs (tie B); every run must return with a documented status.",
    design_ref="§6 C06", technique="Lean 4 termination proof (well-founded recursion on the real loop) + bit-exact skeleton replay on adversarial double runs",
@@ -54,7 +54,7 @@ CHECKS = {
    design_ref="§6 C12", technique="Lean 4 proof (state machine, all oracles) + exhaustive fault-mask runs with bit-exact trace replay",
    note="'transient failures do not prevent convergence' is monitored (numerical behaviour), not proved"),
  "C14": dict(category="proof",
-   text="Spec-level theorems on the dense Schur-complement recursions the model uses for LDL': ldlt_correct (symmetric input, no zero pivot => L D L' = A with L unit lower), ldltSolve_correct, permt_perm_id + exhaustive exact correspondence of the pattern-dependent code: sparse::LDLt (elimination tree, symbolic column counts, numeric up-looking factorisation, solves) on ALL upper-triangular patterns with full diagonal for n<=5 x quasi-definite value sets incl. exact zero-pivot-inducing ones (every pivot position) x all permutations n<=4, dense LDLTNoPivot (blocked/unblocked, Lower/Upper) across the blocking thresholds with zero pivots at block boundaries, CSC utilities, AMD consistency.",
+   text="Spec-level theorems on the dense Schur-complement recursions the model uses for LDL': ldlt_correct (symmetric input, no zero pivot => L D L' = A with L unit lower), ldltSolve_correct, solveLD_eq (the staged solve on stored factors is that recursion), perm_solve / innerLDLT_exact (assembled, symmetrically permuted, factorised, solved, permuted back and split: the model's sparse inner solver satisfies C13's InnerExact for every permutation), sparse_factor_then_solve_exact (C13's elimination theorem unconditional for the model's sparse back ends) + exhaustive exact correspondence of the pattern-dependent code: sparse::LDLt (elimination tree, symbolic column counts, numeric up-looking factorisation, solves) on ALL upper-triangular patterns with full diagonal for n<=5 x quasi-definite value sets incl. exact zero-pivot-inducing ones (random pivot position) x all permutations n<=4, dense LDLTNoPivot (blocked/unblocked, Lower/Upper) across the blocking threshold incl. zero pivots at, before and after block boundaries (n = 32, 33; thorough 130, 257), CSC utilities, AMD consistency.",
    design_ref="§6 C14", technique="Lean 4 spec-level proof + exhaustive exact-rational correspondence of the pattern-dependent kernels",
    note="the refinement sparse symbolic/numeric code -> spec is carried by the exhaustive tie (n<=5) and random patterns, not by a theorem; Eigen AMD only checked for consistency"),
  "C15": dict(category="proof",
